@@ -38,7 +38,8 @@ int cmp_p(int a, int b)
 long rank_of(int prio) { return g_cmp_kind == 1 ? -(long)prio : (long)prio; }
 int cmp_cb(const void *a, const void *b, void *p)
 {
-    CHECK_NOTHROW(p == &g_priv_token, "C07.cmp.priv", "compare function received a different priv pointer");
+    // (under C15 a wrong priv after clear is C15's finding: the cleared heap must work like a fresh one)
+    CHECK_NOTHROW(p == &g_priv_token, g_prop == "C15" ? "C15.heap.reuse" : "C07.cmp.priv", "compare function received a different priv pointer");
     return cmp_p(((const Elem *)a)->prio, ((const Elem *)b)->prio);
 }
 
